@@ -45,7 +45,7 @@ CONF['views'] = dict(quick=[('gates-deep', ('H_G', 'M_E0', 'T_G2', 'O_G2', 4, 2,
                      thorough=CONF['gates']['thorough'] + CONF['struct']['thorough'])
 
 PROPS = {
-    'C12': dict(conf=['struct'], owned={'accept_iff', 'rule_named', 'n_subcircuits'}, sites=('run',),
+    'C12': dict(conf=['struct'], owned={'accept_iff', 'rule_named', 'n_subcircuits'}, sites=('run', 'run_shared'),
                 rule='placements of prepare_all / measure_all / gates / subcircuit blocks over nested sequential blocks, '
                      'parallel blocks, loops (0, 1, 2, let) and a macro; non-trivial = distinct programs with a loop or a block '
                      'around a prepare/measure event'),
@@ -175,6 +175,18 @@ def run_exec(job):
                 obs = execrun.observe(lambda: run_jaqal_circuit(c2), seed=job['seed'])
             cases.append({'id': '%s/run_ovr/%d' % (job['id'], k), 'site': 'run_ovr', 'inp': inp, 'ovr': ovr,
                           'text': text + ' | override %s' % passes.ovr_dict(ovr), 'obs': obs, 'outs': []})
+    if 'run_shared' in job['sites'] and job.get('prev') is not None:
+        # a history on ONE backend object: another program is executed first, then this one (the specification judges this
+        # run exactly like a run on a fresh backend: what an execution does must not depend on what the backend did before)
+        from jaqalpaq.emulator.unitary import UnitarySerializedEmulator
+        backend = UnitarySerializedEmulator()
+        ptext = render.render_prog(job['prev'])
+        _, pc = passes.outcome(lambda: passes.parse_prog(job['prev'], ptext))
+        if pc is not None:
+            impl.with_cpu_limit(lambda: run_jaqal_circuit(pc, backend=backend), seconds=3)
+        obs = execrun.observe(lambda: run_jaqal_circuit(circ, backend=backend), seed=job['seed'])
+        cases.append({'id': job['id'] + '/run_shared', 'site': 'run_shared', 'inp': inp, 'outs': [], 'obs': obs,
+                      'text': text + ' | executed on a backend object that had executed before: ' + ptext})
     if 'rerun' in job['sites']:
         # one job executed twice, the result views read in between (results accumulate in the subcircuit objects)
         from jaqalpaq.emulator.unitary import UnitarySerializedEmulator
@@ -205,6 +217,14 @@ def run_exec(job):
                 warnings.simplefilter('ignore', RuntimeWarning)
                 obs = execrun.observe(lambda: run_jaqal_circuit(c2), seed=job['seed'])
             cases.append({'id': job['id'] + '/approx', 'site': 'approx', 'inp': inp, 'text': text, 'obs': obs, 'outs': []})
+    if 'longrun' in job['sites']:
+        # counts beyond 16 bits: one outcome recorded 70 000 times, by the emulator and by the output parser (integers and
+        # strings mixed); only the result views are judged (hook events are dropped: 140 000 of them carry nothing new)
+        for key, fn in (('emu', lambda: run_jaqal_circuit(circ)),
+                        ('out', lambda: parse_jaqal_output_list(circ, [1 if j % 2 else '1' for j in range(job['nv'])]))):
+            obs = execrun.observe(fn, seed=job['seed'], limit=300)
+            obs['visits'], obs['applies'] = [], []
+            cases.append({'id': '%s/longrun/%s' % (job['id'], key), 'site': 'longrun', 'inp': inp, 'text': text, 'obs': obs, 'outs': []})
     if 'used' in job['sites']:
         from jaqalpaq.core.algorithm import get_used_qubit_indices
         cases.append({'id': job['id'] + '/used', 'site': 'used', 'inp': inp, 'text': text, 'obs': dict(execrun.EMPTY_OBS), 'outs': [],
@@ -261,7 +281,11 @@ def main(prop, tier):
                 items = rng.sample(items, budget)
                 rep.cov['exhaustive'] = False
             for n, it in enumerate(items):
-                jobs.append({'id': '%s/%d' % (name, n), 'prog': it['prog'], 'nv': it['nv'], 'nq': it['nq'], 'accept': it['accept'],
+                if 'run_shared' in spec['sites'] and n % 2 == 1:
+                    shared_prev = items[n - 1]['prog']
+                else:
+                    shared_prev = None
+                jobs.append({'prev': shared_prev, 'id': '%s/%d' % (name, n), 'prog': it['prog'], 'nv': it['nv'], 'nq': it['nq'], 'accept': it['accept'],
                              'sites': spec['sites'], 'seed': core.seed() + n,
                              'ovrs': passes.override_choices(it['prog'], rng, [0, 2, 3, 1], 2)[1:]
                              if 'run_ovr' in spec['sites'] and (prop == 'C03' or name.endswith('-ovr')) else []})
@@ -274,6 +298,9 @@ def main(prop, tier):
             w = f['witness']
             jobs.append({'id': 'witness/' + f['id'], 'prog': dict(passes.EMPTY_PROG, natives=passes.exact_natives()),
                          'text': w['text'], 'nv': w.get('nv', 0), 'nq': w.get('nq', 2), 'sites': spec['sites'], 'seed': 1})
+    if prop == 'C15':
+        jobs.append({'id': 'long/0', 'prog': dict(passes.EMPTY_PROG, natives=passes.exact_natives()), 'nv': 70001, 'nq': 1, 'seed': 1,
+                     'text': 'register q[1]\nloop 70000 {\nprepare_all\nX q[0]\nmeasure_all\n}\nprepare_all\nmeasure_all\n', 'sites': ('longrun',)})
     if prop in ('C03', 'C13'):
         # the emulator as a state machine: every interleaving of parallel branches gives the textual-order state
         for w in range(1, 6):
